@@ -107,14 +107,22 @@ def fixTail (r : Row) (st : Style) : Row :=
   | some ⟨.ch _ cw, _⟩ => if cw > 1 then r.dropLast ++ [blank st] else r
   | _ => r
 
+/-- a row cut back to `W` cells (`truncateLine`): a wide character cut by the new edge — of any
+    width — becomes blanks in `st` -/
+def cutRow (r : Row) (W : Nat) (st : Style) : Row :=
+  (if contAt r W then blankCharAt r W st else r).take W
+
 /-- span-buffer policy for a text write that starts on a continuation cell: keep the wide
     character, insert the text after it, cut the row back to its width -/
 def Row.putKeep (r : Row) (x : Nat) (text : Bytes) (w : Nat) (st : Style) : Row :=
   let W := r.length
   let e := headOf r x + widthAt r (headOf r x)     -- first column after the kept character
-  let r1 := if contAt r (x + w) then blankCharAt r (x + w) st else r
-  let r2 := r1.take e ++ charCells text w st ++ r1.drop (x + w)
-  fixTail (r2.take W) st
+  let b := x + w                                   -- end of the range the write addresses
+  -- the cells of the kept character right of the addressed range are handed on as blanks; a
+  -- different wide character cut by the end of the range is blanked
+  let tail := if b < e then List.replicate (e - b) (blank st) ++ r.drop e
+              else (if contAt r b then blankCharAt r b st else r).drop b
+  cutRow (r.take e ++ charCells text w st ++ tail) W st
 
 /-! ### screens -/
 
